@@ -1,6 +1,7 @@
 import Flowjaxv.Driver.Util
 import Flowjaxv.Driver.Leaves
 import Flowjaxv.Driver.Tree
+import Flowjaxv.Driver.Misc
 /-!
 Model driver: `lake env lean --run Driver.lean < ops.txt`.  One op per line in, one line out
 (`ERR <msg>` when the model rejects the op).
@@ -16,6 +17,11 @@ def dispatch (line : String) : String :=
       | "leaf" => leaf args
       | "tree" => tree args
       | "vtree" => vtree args
+      | "ctor" => ctor args
+      | "permute" => permute args
+      | "permvalid" => permvalid args
+      | "flip" => flip args
+      | "addcond" => addcond args
       | _ => .error s!"unknown op {op}"
     match r with
     | .ok s => s
